@@ -2,7 +2,7 @@
    Only statements; every proof is [exact <lemma>].  Vocabulary: Proofs/QueriesSpec.v. *)
 From Coq Require Import List NArith ZArith Bool Sorting.Permutation.
 From KV Require Import Lib.Bits Model.Queries Proofs.QueriesSpec Proofs.QueriesSeekMap Proofs.QueriesMerge
-  Proofs.QueriesMapping Proofs.QueriesClient.
+  Proofs.QueriesMapping Proofs.QueriesClient Proofs.QueriesReadParts.
 Import ListNotations.
 Open Scope Z_scope.
 
@@ -284,6 +284,47 @@ Theorem C19_read_partitions_partition_errors : forall v6 ct r l,
 Proof. exact read_partitions_partition_errors. Qed.
 Print Assumptions C19_read_partitions_partition_errors.
 
+(* ---- ReadPartitions: which topics the request asks for ---- *)
+
+(* The topic array of the metadata request, for every shape of the argument (None = call
+   without argument / nil slice, Some l = non-nil slice, possibly empty) and every
+   connection: the caller's topics, else the connection's topic, else the NULL array
+   (all topics) — never the empty array, which a broker reads as "no topic". *)
+Theorem C19_read_partitions_request_exact : forall ct arg,
+  read_partitions_request ct arg = topics_asked ct arg.
+Proof. exact read_partitions_request_exact. Qed.
+Print Assumptions C19_read_partitions_request_exact.
+
+(* no topic named by the caller or the connection: the request asks for all topics,
+   whatever the nil-ness of the caller's slice *)
+Theorem C19_read_partitions_asks_all : forall arg,
+  arg_topics arg = [] -> read_partitions_request [] arg = None.
+Proof. exact read_partitions_asks_all. Qed.
+Print Assumptions C19_read_partitions_asks_all.
+
+(* against a broker that answers what is on the wire (null array: every topic; a list:
+   one entry per distinct name, the cluster's topic or UNKNOWN_TOPIC_OR_PARTITION), the
+   result lists exactly the cluster's partitions for the topics asked *)
+Theorem C19_read_partitions_call_exact : forall v6 ct arg cluster,
+  let topics := topics_of_cluster cluster (topics_asked ct arg) in
+  read_partitions_call v6 ct arg cluster =
+  match find (rp_topic_fails ct) topics with
+  | Some t => PartsErr (mt_error t)
+  | None => PartsOk (flat_map (fun t => map (rp_part v6 (md_brokers cluster) (mt_name t)) (mt_parts t)) topics)
+  end.
+Proof. exact read_partitions_call_exact. Qed.
+Print Assumptions C19_read_partitions_call_exact.
+
+Theorem C19_read_partitions_all_topics : forall v6 arg cluster,
+  arg_topics arg = [] ->
+  read_partitions_call v6 [] arg cluster =
+  match find (fun t => negb (mt_error t =? 0)) (md_topics cluster) with
+  | Some t => PartsErr (mt_error t)
+  | None => PartsOk (flat_map (fun t => map (rp_part v6 (md_brokers cluster) (mt_name t)) (mt_parts t)) (md_topics cluster))
+  end.
+Proof. exact read_partitions_all_topics. Qed.
+Print Assumptions C19_read_partitions_all_topics.
+
 (* ======================= non-vacuity ======================= *)
 
 Example C19_seek_example :
@@ -313,3 +354,14 @@ Example C19_listoffsets_example :
                                     {| rp_partition := 1; rp_error := 0; rp_ts := -2; rp_offset := 10; rp_epoch := 3 |}])] |}
   /\ length C19_ex_outs = length (req_entries C19_ex_req).
 Proof. split; vm_compute; reflexivity. Qed.
+
+(* an empty non-nil slice on a connection without topic still lists the whole cluster *)
+Example C19_read_partitions_example :
+  let cluster := {| md_throttle := 0; md_brokers := [{| mb_node := 1; mb_host := [104%N]; mb_port := 9092; mb_rack := [] |}];
+                    md_cluster := []; md_controller := 1;
+                    md_topics := [{| mt_error := 0; mt_name := [111%N]; mt_internal := false;
+                                     mt_parts := [{| mp_error := 0; mp_index := 0; mp_leader := 1; mp_replicas := [1]; mp_isr := [1]; mp_offline := [] |}] |}] |} in
+  read_partitions_request [] (Some []) = None /\
+  read_partitions_call false [] (Some []) cluster = read_partitions_call false [] None cluster /\
+  exists p, read_partitions_call false [] (Some []) cluster = PartsOk [p] /\ pt_id p = 0 /\ pt_topic p = [111%N].
+Proof. repeat split. eexists. repeat split. Qed.
